@@ -8,7 +8,8 @@
     stuck TCP handlers, and every wait.
     Statements, [exact], [Print Assumptions] only. *)
 From Coq Require Import List NArith Bool.
-From Fabio Require Import Model.Shutdown Proofs.Shutdown Model.ExitSignals Proofs.ExitSignals.
+From Fabio Require Import Model.Shutdown Proofs.Shutdown Model.ExitSignals Proofs.ExitSignals
+  Model.ExitDeregister Proofs.ExitDeregister.
 Import ListNotations.
 Local Open Scope N_scope.
 
@@ -376,3 +377,102 @@ Theorem C18_hups_nonvacuous :
   proc_end true 1000 (main_work ex_reqs) [(100, SHup); (300, SHup); (301, SHup)] = ERunning.
 Proof. exact hups_nonvacuous. Qed.
 Print Assumptions C18_hups_nonvacuous.
+
+(* ---- The whole exit handler: deregister ; grace period ; proxy.Shutdown (Model/ExitDeregister.v:
+   registry/consul/register.go:71-94, registry/consul/backend.go:98-109, main.go:123-133).
+   [retry] = false is the code. ---- *)
+
+(* DeregisterAll returns whatever the agent answers (accepted / refused / failed, in any pattern
+   over time), whenever it is called, within the time of five calls to the agent *)
+Theorem C18_deregister_always_answered : forall a H,
+  (forall c t, dleb (a_hold a c t) (Fin H) = true) ->
+  forall registering r,
+  exists d, deregister_all false registering a r = Some (Fin d) /\ r <= d /\ d <= r + 5 * H.
+Proof. exact dereg_answered. Qed.
+Print Assumptions C18_deregister_always_answered.
+
+(* every turn of the registration loop reaches the select, where the request is received *)
+Theorem C18_registration_turn_reaches_select : forall a H,
+  (forall c t, dleb (a_hold a c t) (Fin H) = true) ->
+  forall r t id,
+  exists ts id', turn false a r t id = in_select a r ts id' /\ t <= ts /\ ts <= t + 3 * H.
+Proof. exact turn_reaches_select. Qed.
+Print Assumptions C18_registration_turn_reaches_select.
+
+(* a loop that retries a failed registration without passing through the select: with an agent
+   that answers at once and refuses the registration the request is never received (the code: at once) *)
+Theorem C18_deregister_retry_without_select_refuted :
+  (forall c t, a_hold refusing_agent c t = Fin 0) /\
+  (forall r, deregister_all false true refusing_agent r = Some (Fin r)) /\
+  (forall r fuel, reg_loop true refusing_agent r fuel 0 false = None).
+Proof. exact retry_without_select_refuted. Qed.
+Print Assumptions C18_deregister_retry_without_select_refuted.
+
+(* the handler calls proxy.Shutdown no later than five agent calls plus the grace period after the
+   first terminating signal, for every signal list *)
+Theorem C18_handler_starts_drain : forall a H,
+  (forall c t, dleb (a_hold a c t) (Fin H) = true) ->
+  forall registering boot grace sigs t0,
+  first_term sigs = Some t0 ->
+  exists ts, proc_phase false registering a boot grace sigs = Some (PDraining ts)
+             /\ t0 + grace <= ts /\ ts <= t0 + 5 * H + grace.
+Proof. exact handler_starts_drain. Qed.
+Print Assumptions C18_handler_starts_drain.
+
+(* clause 3 for the whole handler: main() returns no later than the wait after that, whatever is open *)
+Theorem C18_handler_process_ends : forall a H registering boot grace w work sigs t0,
+  (forall c t, dleb (a_hold a c t) (Fin H) = true) ->
+  first_term sigs = Some t0 ->
+  exists ph T, proc_phase false registering a boot grace sigs = Some ph
+               /\ phase_end w work ph = EClean (Fin T) /\ t0 + grace <= T /\ T <= t0 + 5 * H + grace + w.
+Proof. exact handler_process_ends. Qed.
+Print Assumptions C18_handler_process_ends.
+
+(* clause 1 *)
+Theorem C18_handler_no_accept : forall a H registering boot grace w work sigs t0 p,
+  (forall c t, dleb (a_hold a c t) (Fin H) = true) ->
+  first_term sigs = Some t0 -> t0 + 5 * H + grace <= p ->
+  exists ph, proc_phase false registering a boot grace sigs = Some ph /\ proc_accepts w work ph p = false.
+Proof. exact handler_no_accept. Qed.
+Print Assumptions C18_handler_no_accept.
+
+(* clause 2 *)
+Theorem C18_handler_inflight_complete : forall a H registering boot grace w work sigs t0,
+  (forall c t, dleb (a_hold a c t) (Fin H) = true) ->
+  first_term sigs = Some t0 ->
+  exists ts, proc_phase false registering a boot grace sigs = Some (PDraining ts) /\
+    forall s l n, In s (work ts) -> In l (leaves s) -> In (Fin n) (litems l) -> n <= w ->
+      proc_item w l ts (phase_end w work (PDraining ts)) (Fin n) = Done (ts + n).
+Proof. exact handler_inflight_complete. Qed.
+Print Assumptions C18_handler_inflight_complete.
+
+Theorem C18_handler_needs_terminating_signal : forall retry registering a boot grace sigs,
+  first_term sigs = None -> proc_phase retry registering a boot grace sigs = Some PListening.
+Proof. exact handler_needs_terminating_signal. Qed.
+Print Assumptions C18_handler_needs_terminating_signal.
+
+(* conservative: nothing to deregister, no grace period = the signal model above *)
+Theorem C18_handler_without_registration_is_signal_model : forall a w work sigs,
+  proc_phase false false a 0 0 sigs = Some (listen_phase true w work sigs).
+Proof. exact handler_without_registration_is_signal_model. Qed.
+Print Assumptions C18_handler_without_registration_is_signal_model.
+
+(* F-C18-4: no limit of the handler's own on the agent's answer to the deregister call *)
+Theorem C18_deregister_held_refuted :
+  (let a := script_agent false None 5000 in
+   proc_phase false true a 300 0 [(100, STerm)] = Some (PDraining 5100) /\
+   proc_accepts 1000 work_never (PDraining 5100) 5000 = true /\
+   phase_end 1000 work_never (PDraining 5100) = EClean (Fin 6100)) /\
+  (let a := {| a_ok := fun _ _ => true; a_hold := fun c _ => match c with ADeregister => Inf | _ => Fin 0 end |} in
+   proc_phase false true a 300 0 [(100, STerm)] = Some PListening /\
+   phase_end 1000 work_never PListening = ERunning).
+Proof. exact deregister_held_refuted. Qed.
+Print Assumptions C18_deregister_held_refuted.
+
+Theorem C18_handler_nonvacuous :
+  let a := script_agent true (Some 2000) 30 in
+  (forall c t, dleb (a_hold a c t) (Fin 30) = true) /\
+  first_term [(50, SHup); (12400, SInt); (12500, STerm)] = Some 12400 /\
+  proc_phase false true a 700 20 [(50, SHup); (12400, SInt); (12500, STerm)] = Some (PDraining 12450).
+Proof. exact handler_nonvacuous. Qed.
+Print Assumptions C18_handler_nonvacuous.
